@@ -593,7 +593,10 @@ def units(ctx, model, problems):
 # round 2: call histories around ZSTD_generateSequences, adversarial block-level sequence producer
 R2_KEYS = {"collector1": "C06-generateSequences-collector-left-armed", "producer1": "C06-splitter-exceeds-compressBound",
            "legacy1": "C06-legacy-bound-oversize-raw-rle-blocks", "legacy2": "C06-legacy-bound-oversize-compressed-block"}
-R2_KIND_KEYS = {"splitter-partition-table-overrun": "C06-splitter-partition-table-overrun"}
+R2_KIND_KEYS = {"splitter-partition-table-overrun": "C06-splitter-partition-table-overrun",
+                "explicit-small-blocks-exceed-compressBound": "C06-compressSequences-explicit-blocks-exceed-compressBound",
+                "macro-margin-documented-blockSize-too-small-with-maxBlockSize": "C06-margin-macro-ignores-maxBlockSize"}
+R2_NOKEY_FAMILIES = ("seqblocks1", "macro1", "legacy3", "concat1")
 
 
 def r2_argv(desc):
@@ -604,8 +607,10 @@ def r2_argv(desc):
         return f[:7]
     if f[0] == "producer1":
         return f[:14]
-    if f[0] in ("legacy1", "legacy2"):
+    if f[0] in ("legacy1", "legacy2", "seqblocks1", "macro1"):
         return f[:4]
+    if f[0] in ("legacy3", "concat1"):
+        return f[:3]
     return None
 
 
@@ -621,10 +626,11 @@ def round2(ctx, problems, model=None):
     def one(mode):
         pr = subprocess.run([exe, mode, str(ctx.seed), str(tier)], stdout=subprocess.PIPE, stderr=subprocess.PIPE, timeout=2400)
         return mode, pr.returncode, pr.stdout.decode("utf-8", "replace"), pr.stderr.decode("utf-8", "replace")
-    with ThreadPoolExecutor(max_workers=3) as ex:
-        res = list(ex.map(one, ("collector", "producer", "legacy")))
+    with ThreadPoolExecutor(max_workers=4) as ex:
+        res = list(ex.map(one, ("collector", "producer", "legacy", "known")))
     seen = {}
-    ncases = dict(collector=0, producer=0, legacy=0)
+    legacy_frames = []
+    ncases = dict(collector=0, producer=0, legacy=0, known=0)
     maxparts = 0
     maxsplits = 0
     splitcases = []
@@ -643,6 +649,23 @@ def round2(ctx, problems, model=None):
                     splitcases.append(d)
                     continue
                 ncases[mode] += 1
+                if mode == "known":
+                    if d.get("fam") == "seqblocks":
+                        bs = int(d["bs"])
+                        ctx.count(("r3-seqblocks", 0 if bs < 1024 else 1, d["ret"] != "-1", d["kind"]), nontrivial=True)
+                    else:
+                        ctx.count(("r3-macro", d["wlog"], d["mbs"] != "0", d["docOk"]), nontrivial=True)
+                    continue
+                if mode == "legacy" and d.get("hex", "-") != "-":
+                    legacy_frames.append(d)
+                if mode == "legacy" and d.get("fam") == "concat":
+                    if "skipped" not in d:
+                        tot = int(d["total"])
+                        ctx.count(("r3-concat", d["nf"], d["legacy5"], 0 if tot == 0 else 1 if tot < KB128 else 2), nontrivial=True)
+                    continue
+                if mode == "legacy" and d.get("fam") == "legacy3":
+                    ctx.count(("r3-legacy3", d["ver"], d["fcs"] != "-1", d["dec"] != "-1"), nontrivial=d["fcs"] != "-1")
+                    continue
                 if mode == "legacy" and d.get("fam") == "legacy2":
                     tot = int(d["total"])
                     ctx.count(("r2-legacy2", d["ver"], d["nbSeq"], d["dec"] != "-1", 0 if tot < KB128 else 1 if tot == KB128 else 2), nontrivial=True)
@@ -681,7 +704,7 @@ def round2(ctx, problems, model=None):
                 seen[k]["count"] += 1
     for k, v in seen.items():
         fam = v["desc"].split()[0]
-        ctx.violation(dict(family="round2-" + fam, harness="c06_r2", **v), key=R2_KIND_KEYS.get(v["kind"], R2_KEYS.get(fam)),
+        ctx.violation(dict(family="round2-" + fam, harness="c06_r2", **v), key=R2_KIND_KEYS.get(v["kind"], None if fam in R2_NOKEY_FAMILIES else R2_KEYS.get(fam)),
                       what="capacity discipline / size bound violated on the real code: %s (%s) x%d :: %s" %
                            (v["kind"], ",".join(v.get("where", [])[:3]) if v.get("where") else v.get("msg", ""), v["count"], v["desc"][:160]))
     # tie of the splitter model (coq/Mem/CompressSplit.v): the table the real ZSTD_deriveBlockSplits leaves vs derive_splits fed with the
@@ -703,7 +726,29 @@ def round2(ctx, problems, model=None):
             if int(q[4], 16) != int(d["limit"]) or int(q[5], 16) != int(d["minseq"]):
                 problems.append(dict(kind="splitter-literals", real=(d["limit"], d["minseq"]), model=(int(q[4], 16), int(q[5], 16))))
         ctx.cov["traces_validated_against_impl"] += len(splitcases)
-    ctx.cov["traces_validated_against_impl"] += ncases["collector"] + ncases["producer"] + ncases["legacy"]
+    # round 3: tie of the legacy frame walk (coq/Codec/LegacyInspect.v legacy_find) - ZSTD_findFrameCompressedSize and
+    # ZSTD_decompressBound of the hand-built v0.5-v0.7 frames (and of truncations / a damaged header byte) vs the extracted model
+    if model is not None and legacy_frames:
+        lines = []; meta = []
+        for d in legacy_frames:
+            hx = d["hex"]; ver = int(d["ver"])
+            lines.append("L %x %s" % (ver, hx)); meta.append((d, "full", int(d["fcs"]), int(d["bound"])))
+        mo = model.run(lines)
+        nbad = 0
+        for (d, what, fcs, bnd), m in zip(meta, mo):
+            mf = m.split()
+            mcs, mb = (int(mf[2], 16), int(mf[3], 16)) if len(mf) >= 4 and mf[1] == "OK" else (-1, -1)
+            ctx.count(("r3-legacy-walk", d["ver"], d.get("fam"), mcs >= 0, mb > KB128), nontrivial=True)
+            if d.get("fam") != "legacy3" and fcs != len(d["hex"]) // 2:
+                mb = bnd = 0    # v0.5 / v0.6: an empty raw block ends the frame; ZSTD_decompressBound of the WHOLE buffer then sees trailing bytes
+            if (mcs, mb) != (fcs, bnd):
+                nbad += 1
+                if nbad <= 4:
+                    problems.append(dict(kind="legacy-walk-model-vs-real", case=" ".join("%s=%s" % kv for kv in d.items() if kv[0] != "hex")[:200],
+                                         real=(fcs, bnd), model=(mcs, mb), hex=d["hex"][:120]))
+        ctx.cov["traces_validated_against_impl"] += len(legacy_frames)
+        ctx.notes["round3_legacy_walk_tied"] = len(legacy_frames)
+    ctx.cov["traces_validated_against_impl"] += ncases["collector"] + ncases["producer"] + ncases["legacy"] + ncases["known"]
     ctx.notes["round2"] = dict(cases=ncases, max_partitions_of_one_block=maxparts, max_splits_derived=maxsplits, max_block_expansion=maxover, split_tables_tied=len(splitcases))
     if ncases["producer"]:
         ctx.sample(dict(family="round2", note="adversarial sequence producer: %d cases, at most %d partitions per source block" % (ncases["producer"], maxparts)))
